@@ -256,6 +256,22 @@ CHECKS = {
          'exception type counts as rejection; exactly-20 ms stamp differences are not generated; a 30 s per-room alarm '
          'turns hangs into violations',
          'DESIGN.md §3 C09', 'enumeration'),
+ 'C01': ('model_checking',
+         'explicit-state breadth-first search with state de-duplication to a fixpoint over the real radio driver loop against an alternating-bit peer model',
+         'Explicit-state model checking of the real _RadioDriverThread.run, _send_packet_safe, RadioDriver.send_packet / '
+         'receive_packet and Crazyradio.send_packet (scripted USB endpoint): the environment is a non-deterministic lossy '
+         'channel ({uplink lost, delivered+acked, delivered with ack lost} per transmission, 10 start-up reply kinds), an '
+         'alternating-bit safelink peer and an application submitting or idling at every loop. BFS over all choice histories '
+         'with de-duplication on the full state (thread attributes + live locals of the run() frame + peer + monitors) '
+         'reaches a fixpoint (frontier empty at depth 41-43) for N=2 (quick) and N in {1,2,3,5} x rate_limit {None,100} '
+         '(thorough, 222 276 states). Exactly-once/in-order, link-error-count, safelink-confirmation and header-bit clauses '
+         'are evaluated in every state; an independent de-duplication-free enumeration of all histories up to 8/11 '
+         'main-loop choices confirms every reached state lies in the visited set; all operation sequences of length <= 5/6 '
+         'run on the bounded hand-off queues.',
+         'peer model mirrors nRF51 esb.c safelink as implied by the driver\'s half of the protocol (no firmware source '
+         'offline); dongle abstracted at the USB endpoint; data independence (ids modulo 4); virtual clock; start-up probes '
+         'do not count towards the retry limit; one genuine defect (half-open safelink) is a known finding',
+         'DESIGN.md §3 C01', 'E2'),
 }
 
 ALL = ['C%02d' % i for i in range(1, 21)]
